@@ -53,6 +53,8 @@ m("C03", "operators/scan.py", "                    observer.on_next(i)\n        
 m("C03", "data/split.py", "                elif isinstance(i, rs.OnCompletedMux):\n                    current_predicate = i.store.get_state(state, i.key)\n                    if current_predicate is not rs.state.markers.STATE_NOTSET:", "                elif isinstance(i, rs.OnCompletedMux):\n                    current_predicate = i.store.get_state(state, i.key)\n                    if current_predicate is rs.state.markers.STATE_NOTSET:", "fire", ["LV"])
 m("C03", "data/roll.py", "                if isinstance(i, rs.OnNextMux):\n                    n = i.store.get_state(state_n, i.key)", "                if type(i) is rs.OnNextMux:\n                    n = i.store.get_state(state_n, i.key)", "silent")
 m("C03", "data/roll.py", "                            if count == window:\n                                i.store.set_state(state_w, (index, i.key), -1)\n                                observer.on_next(rs.OnCompletedMux((index, i.key), i.store))", "                            if count == window:\n                                observer.on_next(rs.OnCompletedMux((index, i.key), i.store))\n                                i.store.set_state(state_w, (index, i.key), -1)", "silent", note="store write after the completion")
+m("C03", "data/roll.py", "                    count = i.store.get_state(state, i.key)\n                    if count == 0:\n                        observer.on_next(rs.OnCreateMux((i.key[0], i.key), i.store))\n\n                    count += 1\n                    observer.on_next(i._replace(key=(i.key[0], i.key)))\n\n                    if count == window:\n                        i.store.set_state(state, i.key, 0)\n                        observer.on_next(rs.OnCompletedMux((i.key[0], i.key), i.store))\n                    else:\n                        i.store.set_state(state, i.key, count)", "                    count = i.store.get_state(state, i.key)\n                    if count == window:\n                        observer.on_next(rs.OnCompletedMux((i.key[0], i.key), i.store))\n                        count = 0\n\n                    if count == 0:\n                        observer.on_next(rs.OnCreateMux((i.key[0], i.key), i.store))\n\n                    count += 1\n                    observer.on_next(i._replace(key=(i.key[0], i.key)))\n                    i.store.set_state(state, i.key, count)", "silent", note="seeded change C11a: late close keeps the protocol well-formed (it violates C05/C11, not C03)")
+m("C03", "data/roll.py", "                    for offset in range(density):\n                        index = i.key[0] * density + (first + offset) % density\n                        if i.store.get_state(state_w, (index, i.key)) != -1:\n                            observer.on_next(i._replace(key=(index, i.key)))\n                            i.store.set_state(state_w, (index, i.key), -1)\n                    outer_observer.on_next(i)\n                elif isinstance(i, rs.OnErrorMux):", "                    for offset in range(1, density):\n                        index = i.key[0] * density + (first + offset) % density\n                        if i.store.get_state(state_w, (index, i.key)) != -1:\n                            observer.on_next(i._replace(key=(index, i.key)))\n                            i.store.set_state(state_w, (index, i.key), -1)\n                    outer_observer.on_next(i)\n                elif isinstance(i, rs.OnErrorMux):", "fire", ["LV"], "seeded change C03a: one slot of the ring is not flushed")
 # ---------------------------------------------------------------- C04
 m("C04", "state/memory_store.py", "        if not map_key in self.values[key[0]]:\n            return rs.state.markers.STATE_NOTSET\n        return self.values[key[0]][map_key]\n\n    def del_map", "        for k, v in self.values[key[0]].items():\n            if k is map_key:\n                return v\n        return rs.state.markers.STATE_NOTSET\n\n    def del_map", "fire", ["EQ-1"])
 m("C04", "operators/group_by.py", "                    observer.on_next(i._replace(key=(index, i.key)))\n\n                elif type(i) is rs.OnCreateMux:", "                    observer.on_next(i._replace(key=(index, i.key), item=map_key))\n\n                elif type(i) is rs.OnCreateMux:", "fire", ["FW-1"])
@@ -64,6 +66,7 @@ m("C05", "data/roll.py", "if (n % stride) == 0:", "if (n % stride) == 1:", "fire
 m("C05", "data/roll.py", "                    n_value = i.store.get_state(state_n, i.key)\n                    i.store.set_state(state_n, i.key, n_value+1)", "                    n_value = i.store.get_state(state_n, i.key)\n                    i.store.set_state(state_n, i.key, n_value+2)", "fire", ["DP-1"])
 m("C05", "data/roll.py", "                        index = i.key[0] * density + (first + offset) % density\n                        if i.store.get_state(state_w, (index, i.key)) != -1:\n                            observer.on_next(i._replace(key=(index, i.key)))\n                            i.store.set_state(state_w, (index, i.key), -1)\n                    outer_observer.on_next(i)\n                elif isinstance(i, rs.OnErrorMux):", "                        index = i.key[0] * density + offset\n                        if i.store.get_state(state_w, (index, i.key)) != -1:\n                            observer.on_next(i._replace(key=(index, i.key)))\n                            i.store.set_state(state_w, (index, i.key), -1)\n                    outer_observer.on_next(i)\n                elif isinstance(i, rs.OnErrorMux):", "fire", ["DP-3"], "the repaired defect")
 m("C05", "data/roll.py", "                    if count == window:\n                        i.store.set_state(state, i.key, 0)", "                    if count == window + 1:\n                        i.store.set_state(state, i.key, 0)", "fire", ["DP-2"])
+m("C05", "data/roll.py", "first = -(-n // stride)\n                    i.store.set_state(state_n, (kindex, i.key), 0)\n                    for offset in range(density):\n                        index = i.key[0] * density + (first + offset) % density\n                        if i.store.get_state(state_w, (index, i.key)) != -1:\n                            observer.on_next(i._replace(key=(index, i.key)))\n                            i.store.set_state(state_w, (index, i.key), -1)\n                    outer_observer.on_next(i)\n                elif isinstance(i, rs.OnErrorMux):", "first = n // stride\n                    i.store.set_state(state_n, (kindex, i.key), 0)\n                    for offset in range(density):\n                        index = i.key[0] * density + (first + offset) % density\n                        if i.store.get_state(state_w, (index, i.key)) != -1:\n                            observer.on_next(i._replace(key=(index, i.key)))\n                            i.store.set_state(state_w, (index, i.key), -1)\n                    outer_observer.on_next(i)\n                elif isinstance(i, rs.OnErrorMux):", "fire", ["DP-3"], "seeded change C05a: floor instead of ceiling")
 m("C05", "data/roll.py", "                            if count == window:\n                                i.store.set_state(state_w", "                            if window == count:\n                                i.store.set_state(state_w", "silent")
 m("C05", "data/roll.py", "                            count = n - w_value + 1\n                            if count == window:", "                            if n - w_value == window - 1:", "silent", note="algebraically equal closing test")
 m("C05", "data/roll.py", "                    if count == 0:\n                        observer.on_next(rs.OnCreateMux((i.key[0], i.key), i.store))", "                    if count < 1:\n                        observer.on_next(rs.OnCreateMux((i.key[0], i.key), i.store))", "silent")
@@ -111,6 +114,12 @@ m("C11", "operators/map.py", "import rxsci as rs\nimport rx.operators as ops\n",
 m("C11", "data/roll.py", "                    if count == window:\n                        i.store.set_state(state, i.key, 0)\n                        observer.on_next(rs.OnCompletedMux((i.key[0], i.key), i.store))\n                    else:\n                        i.store.set_state(state, i.key, count)", "                    i.store.set_state(state, i.key, count)", "fire", ["PR-3"], "tumbling windows closed only at parent completion")
 # ---------------------------------------------------------------- C12
 m("C12", "math/mean.py", "rs.ops.scan(accumulate, (0, 0), reduce=reduce),", "rs.ops.scan(accumulate, (0, 0), reduce=True),", "fire", ["AG-4"])
+m("C12", "math/variance.py", "s = s + (i - m1)*(i - m)", "s = s + (i - m1)*(i - m1)", "fire", ["NM-1"])
+m("C12", "math/variance.py", "0.0 if acc[2] < 2 else acc[1] / (acc[2]-1)", "0.0 if acc[2] < 2 else acc[1] / acc[2]", "fire", ["NM-1"])
+m("C12", "math/min.py", "if acc is None or i < acc:", "if acc is None or i > acc:", "fire", ["NM-1"])
+m("C12", "math/formal/variance.py", "v = _moment(acc, mean, 2)", "v = _moment(acc, 0, 2) - mean**2", "fire", ["NM-1"], "seeded change C12a")
+m("C12", "math/variance.py", "m = m + (i - m) / k", "m = (m * (k - 1) + i) / k", "silent", note="algebraically equal mean update")
+m("C12", "math/min.py", "if acc is None or i < acc:", "if acc is None or acc > i:", "silent")
 # ---------------------------------------------------------------- C13
 m("C13", "operators/filter.py", "                    except Exception as e:", "                    except ValueError as e:", "fire", ["ER-1"])
 m("C13", "operators/map.py", "observer.on_next(rs.OnErrorMux(i.key, e, i.store))", "observer.on_next(rs.OnErrorMux(i.key, e))", "fire", ["ER-1"])
@@ -145,6 +154,7 @@ m("C17", "data/codec.py", "def decode(encoding='utf8', incremental=True):", "def
 m("C18", "container/csv.py", "                        f = f.replace(escapechar, f'{escapechar}{escapechar}')\n", "", "fire", ["CS-1"])
 m("C18", "container/csv.py", "        return lambda i: i == 'True'", "        return lambda i: i == 'true'", "fire", ["CS-1"])
 m("C18", "container/csv.py", "def parse_decimal(ii):\n    if len(ii) == 0:\n        return None\n    return float(ii)", "def parse_decimal(ii):\n    if len(ii) == 0:\n        return None\n    s = ii.split('.')\n    r = int(s[1]) / (10 ** len(s[1])) if len(s) > 1 else 0\n    return float(int(s[0])) + r", "fire", ["DP-7"], "the repaired defect")
+m("C18", "container/csv.py", "            elif agg is not None:\n                agg.append(t)\n            else:\n                merged_parts.append(t)", "            elif agg is not None and len(t) > 0:\n                agg.append(t)\n            elif agg is None:\n                merged_parts.append(t)", "fire", ["CS-2"], "like seeded change C18a: empty piece inside a quoted field dropped")
 # ---------------------------------------------------------------- C19
 m("C19", "container/json.py", "        'gzip': rs.compression.z.decompress,\n        'zstd': rs.compression.zstd.decompress,", "        'gzip': rs.compression.zstd.decompress,\n        'zstd': rs.compression.z.decompress,", "fire", ["AG-7"])
 m("C19", "container/json.py", "                rs.data.decode(encoding),\n                line.unframe(),\n                load(skip=skip, ignore_error=ignore_error),\n        )\n    else:", "                line.unframe(),\n                rs.data.decode(encoding),\n                load(skip=skip, ignore_error=ignore_error),\n        )\n    else:", "fire", ["AG-7"])
